@@ -22,7 +22,7 @@ from ..oracles import chords as CH
 
 ID = "C10"
 RULE = ("Case = one ray-transfer object (box: nx,ny,nz in 1..6, cells 0.05..2 m; cylinder: n_r,n_z in 1..6, n_polar in 1..8 incl. "
-        "the axisymmetric 2-D form, inner radius 0 or > 0, period in {360,180,120,90,72,60,45}), a voxel description (none / "
+        "the axisymmetric 2-D form, inner radius 0 or > 0, period in {360,180,120,90,72,60,45, 22.5, 7.5, 360/7, 360/11}), a voxel description (none / "
         "boolean mask / voxel map with merged cells, -1 holes and unused source numbers; given to the constructor or through the "
         "property setters), an integration step (default, or 0.05..1.7 of the smallest cell), a rigid placement (translation + "
         "three rotations) and 4 rays built by construction in grid coordinates: through two points of the enlarged bounding "
@@ -110,7 +110,7 @@ TOLERANCES = {
 }
 REQUIRED_LABELS = ["box:ray:edge", "box:ray:inside", "box:ray:axis", "box:ray:plane", "box:ray:two", "box:nt:masked", "box:nt:edge",
                    "box:map:merge", "box:map:mask", "cyl:ray:tangent", "cyl:ray:halfplane", "cyl:ray:axis", "cyl:ray:edge",
-                   "cyl:ray:throughaxis", "cyl:nt:wraps", "cyl:nt:tangent", "cyl:axisymmetric", "cyl:period<360", "cyl:rmin>0",
+                   "cyl:ray:throughaxis", "cyl:nt:wraps", "cyl:nt:tangent", "cyl:axisymmetric", "cyl:period<360", "cyl:period:fractional", "cyl:rmin>0",
                    "cyl:rmin=0", "cyl:map:merge", "pipelines:dim:0", "pipelines:dim:1", "pipelines:dim:2", "pipelines:power",
                    "pipelines:radiance", "pipelines:change:mask", "pipelines:change:map", "pipelines:change:place",
                    "pipelines:change:view", "pipelines:change:kind", "pipelines:change:samples"]
@@ -126,7 +126,7 @@ REQUIRED_LABELS += ["box:shape:nx!=ny!=nz"]
 FORTRAN = "C10-fortran-voxel-map"        # open: a Fortran-ordered / transposed voxel_map is rejected and corrupts the object
 AXIS_HOLE = "C10-axis-hole-zero-row"     # open: radius_inner = 0 still gets an inner bounding cylinder of radius 1e-5 dr
 
-PERIODS = [360.0, 180.0, 120.0, 90.0, 72.0, 60.0, 45.0]
+PERIODS = [360.0, 180.0, 120.0, 90.0, 72.0, 60.0, 45.0, 22.5, 7.5, 360.0 / 7, 360.0 / 11]     # whole and fractional degrees
 SIZES = [0.05, 0.1, 0.25, 0.5, 1.0, 2.0]
 OFFS = [0.0, 0.0, 0.0, 0.0, 1e-9, -1e-9, 1e-6, -1e-6, 1e-4, -1e-4]
 ANGLES = [0.0, 0.0, 90.0, -90.0, 180.0, 30.0, 45.0, -137.5]
@@ -657,6 +657,8 @@ def run(case, ctx):
         if shape[1] == 1:
             ctx.label("axisymmetric")
         ctx.label("period<360" if case["period"] < 360 else "period=360", "rmin>0" if case["rmin"] > 0 else "rmin=0")
+        if case["period"] != int(case["period"]):
+            ctx.label("period:fractional")
     elif len(set(shape)) == 3:
         ctx.label("shape:nx!=ny!=nz")
     M = CH.rigid(case["place"]["t"], case["place"]["r"])
